@@ -223,15 +223,17 @@ Section Generic.
     unfold iteration.
     set (run0 := running st).
     set (rs := filter _ (reports it)). set (compl := filter _ (completed it)).
-    pose proof (process_results_wf compl rs (sst st) (mark_completed (be st) compl) [] p) as H1.
-    destruct (process_results sch c (sst st) (mark_completed (be st) compl) [] compl rs) as [[[s1 b1] done] ev1].
+    set (fl := filter _ (failed it)).
+    pose proof (process_results_wf compl rs (sst st) (mark_failed (mark_completed (be st) compl) fl) [] p) as H1.
+    destruct (process_results sch c (sst st) (mark_failed (mark_completed (be st) compl) fl) [] compl rs) as [[[s1 b1] done] ev1].
     simpl in H1.
+    set (s1' := fold_left (on_error sch) (filter (fun i => negb (mem_Z i done)) fl) s1).
     destruct (exhausted st).
-    - pose proof (loop_end_wf s1 b1 (spec_choice it) (p ++ ev1)) as H3.
-      destruct (loop_end sch c s1 b1 (spec_choice it)) as [[s3 b3] ev3]. simpl in *.
+    - pose proof (loop_end_wf s1' b1 (spec_choice it) (p ++ ev1)) as H3.
+      destruct (loop_end sch c s1' b1 (spec_choice it)) as [[s3 b3] ev3]. simpl in *.
       apply wf_from_app. tauto.
-    - pose proof (schedule_nodel (sugg it) s1 b1 (filter (fun i => negb (mem_Z i done) && negb (mem_Z i compl)) run0)) as H2.
-      destruct (schedule sch s1 b1 _ (sugg it)) as [[[[[s2 b2] run2] ex] er] ev2]. simpl in H2.
+    - pose proof (schedule_nodel (sugg it) s1' b1 (filter (fun i => negb (mem_Z i done) && negb (mem_Z i compl) && negb (mem_Z i fl)) run0)) as H2.
+      destruct (schedule sch s1' b1 _ (sugg it)) as [[[[[s2 b2] run2] ex] er] ev2]. simpl in H2.
       destruct er; simpl.
       + apply wf_from_app. split; [exact H1|]. now apply wf_from_nodel.
       + pose proof (loop_end_wf s2 b2 (spec_choice it) ((p ++ ev1) ++ ev2)) as H3.
@@ -370,6 +372,8 @@ Qed.
 
 Lemma mark_completed_ids l : forall b, new_trial_id (mark_completed b l) = new_trial_id b.
 Proof. induction l as [|i l IH]; intros b; simpl; [reflexivity|]. rewrite IH. reflexivity. Qed.
+Lemma mark_failed_ids l : forall b, new_trial_id (mark_failed b l) = new_trial_id b.
+Proof. induction l as [|i l IH]; intros b; simpl; [reflexivity|]. rewrite IH. reflexivity. Qed.
 
 Lemma finish_nores {S} c (st : tstate S) : nores (finish c st).
 Proof.
@@ -416,6 +420,9 @@ Section ResumeSafe.
     sinv n s' /\ incl (needed s') (needed s) /\
     forall i, In i l -> ~ In i (needed s') /\ (0 <= i < n)%Z.
 
+  Hypothesis H_err : forall n s i, sinv n s ->
+    sinv n (on_error sch s i) /\ incl (needed (on_error sch s i)) (needed s).
+
   Definition Inv (D : list Z) (n : Z) (s : S) : Prop :=
     sinv n s /\ (forall i, In i D -> (0 <= i < n)%Z) /\ (forall i, In i (needed s) -> ~ In i D).
 
@@ -423,6 +430,12 @@ Section ResumeSafe.
   Proof.
     intros [_ [H2 H3]] Hs Hi. split; [exact Hs|]. split; [exact H2|].
     intros i Hin. apply H3. now apply Hi.
+  Qed.
+
+  Lemma on_error_fold_Inv D n : forall l s, Inv D n s -> Inv D n (fold_left (on_error sch) l s).
+  Proof.
+    induction l as [|i l IH]; intros s HI; simpl; [exact HI|]. apply IH.
+    destruct (H_err n s i (proj1 HI)) as [A B]. eapply Inv_step; eauto.
   Qed.
 
   Lemma process_results_safe compl : forall rs s b done D s' b' done' ev,
@@ -614,23 +627,26 @@ Section ResumeSafe.
     intros [HI Hr] E. unfold iteration in E.
     set (rs := filter (fun r => mem_Z (fst r) (running st)) (reports it)) in *.
     set (compl := filter (fun i => mem_Z i (running st)) (completed it)) in *.
-    assert (forall i r, In (i, r) rs -> (0 <= i < new_trial_id (mark_completed (be st) compl))%Z) as Hb.
-    { intros i r Hin. rewrite mark_completed_ids. apply filter_In in Hin as [_ Hm]. simpl in Hm.
+    set (fl := filter (fun i => mem_Z i (running st)) (failed it)) in *.
+    assert (forall i r, In (i, r) rs -> (0 <= i < new_trial_id (mark_failed (mark_completed (be st) compl) fl))%Z) as Hb.
+    { intros i r Hin. rewrite mark_failed_ids, mark_completed_ids. apply filter_In in Hin as [_ Hm]. simpl in Hm.
       apply Hr. clear -Hm. induction (running st) as [|y l IHl]; simpl in *; [discriminate|].
       apply orb_true_iff in Hm as [Hm|Hm]; [left; symmetry; now apply Z.eqb_eq | right; auto]. }
-    rewrite <- (mark_completed_ids compl) in HI.
-    destruct (process_results sch c (sst st) (mark_completed (be st) compl) [] compl rs) as [[[s1 b1] done] ev1] eqn:E1.
+    rewrite <- (mark_completed_ids compl), <- (mark_failed_ids fl) in HI.
+    destruct (process_results sch c (sst st) (mark_failed (mark_completed (be st) compl) fl) [] compl rs) as [[[s1 b1] done] ev1] eqn:E1.
     destruct (process_results_safe compl rs _ _ _ D _ _ _ _ HI Hb E1) as [Hid1 [Hrs1 HI1]].
     rewrite <- Hid1 in HI1.
-    set (run1 := filter (fun i => negb (mem_Z i done) && negb (mem_Z i compl)) (running st)) in *.
+    apply (on_error_fold_Inv _ _ (filter (fun i => negb (mem_Z i done)) fl)) in HI1.
+    set (s1' := fold_left (on_error sch) (filter (fun i => negb (mem_Z i done)) fl) s1) in *.
+    set (run1 := filter (fun i => negb (mem_Z i done) && negb (mem_Z i compl) && negb (mem_Z i fl)) (running st)) in *.
     assert (bounded (new_trial_id b1) run1) as Hr1.
-    { intros x Hx. apply filter_In in Hx as [Hx _]. rewrite Hid1, mark_completed_ids. exact (Hr x Hx). }
+    { intros x Hx. apply filter_In in Hx as [Hx _]. rewrite Hid1, mark_failed_ids, mark_completed_ids. exact (Hr x Hx). }
     destruct (exhausted st).
-    - destruct (loop_end sch c s1 b1 (spec_choice it)) as [[s3 b3] ev3] eqn:E3.
+    - destruct (loop_end sch c s1' b1 (spec_choice it)) as [[s3 b3] ev3] eqn:E3.
       injection E as <- <- <-.
       destruct (loop_end_safe _ _ _ _ _ _ _ HI1 E3) as [Hid3 [Hrs3 HI3]].
       rewrite rs_from_app, dset_app. split; [tauto|]. split; simpl; rewrite Hid3; assumption.
-    - destruct (schedule sch s1 b1 run1 (sugg it)) as [[[[[s2 b2] run2] ex] er2] ev2] eqn:E2.
+    - destruct (schedule sch s1' b1 run1 (sugg it)) as [[[[[s2 b2] run2] ex] er2] ev2] eqn:E2.
       destruct (schedule_safe _ _ _ _ _ _ _ _ _ _ _ HI1 Hr1 E2) as [Hrs2 [Hd2 [HI2 Hr2]]].
       destruct er2.
       + injection E as <- <- <-. rewrite rs_from_app, dset_app, Hd2. split; [tauto|]. split; assumption.
@@ -747,13 +763,23 @@ Proof.
   split; [exact Hinv|]. split; [apply incl_refl|]. intros i [].
 Qed.
 
+Lemma promo_H_err : forall n s i, promo_inv n s ->
+  promo_inv n (on_error promo_sched s i) /\ incl (promo_needed (on_error promo_sched s i)) (promo_needed s).
+Proof.
+  intros n s i Hinv. simpl.
+  assert (incl (promo_needed {| p_active := remove_Z i (p_active s); p_paused := p_paused s |}) (promo_needed s)) as Hi.
+  { intros x Hx. unfold promo_needed in *. simpl in Hx. apply in_or_app.
+    apply in_app_or in Hx as [Hx|Hx]; [now left|]. apply remove_Z_In in Hx. right; tauto. }
+  split; [eapply promo_inv_incl; eauto | exact Hi].
+Qed.
+
 Theorem promo_resume_has_checkpoint : forall c its pre i post, speculative c = false ->
   run promo_sched c (init promo0) its = pre ++ EResume i :: post ->
   forall w, ~ In (EDelete i w) pre.
 Proof.
   intros c its pre i post Hs E.
   apply (resume_has_checkpoint promo_sched c Hs promo_needed promo_inv promo_H_res promo_H_sug promo_H_rem
-           promo0 its pre i post); [|exact E].
+           promo_H_err promo0 its pre i post); [|exact E].
   split; [lia|]. intros x [].
 Qed.
 
@@ -958,7 +984,7 @@ Theorem pbt_clone_source_alive : forall p c its pre j t post, speculative c = fa
 Proof.
   intros p c its pre j t post Hs E.
   apply (copy_has_checkpoint (pbt_sched p) c Hs pbt_needed pbt_inv (pbt_H_res p) (pbt_H_sug p) (pbt_H_rem p)
-           pbt0 its pre j t post); [|exact E].
+           (fun n s i H => conj H (incl_refl _)) pbt0 its pre j t post); [|exact E].
   split; [lia|]. split; [intros x []|constructor].
 Qed.
 
@@ -982,9 +1008,9 @@ Definition wcfg := {| delete_checkpoints := true; remove_callback := false; spec
 Definition wprm := {| pp_max_t := 3; pp_interval := 1; pp_qf := 1 # 2 |}.
 (* two workers; one poll delivers 0@1 1@1 0@2 1@2 1@3 (score of trial 0 below trial 1) *)
 Definition wits : list (iter_in (Q * Q * Z) Z) :=
-  [ {| reports := []; completed := []; sugg := [0%Z; 0%Z]; spec_choice := [] |};
+  [ {| reports := []; completed := []; failed := []; sugg := [0%Z; 0%Z]; spec_choice := [] |};
     {| reports := [(0%Z, (1, 1, 0%Z)); (1%Z, (1, 2, 0%Z)); (0%Z, (2, 1, 1%Z)); (1%Z, (2, 2, 0%Z)); (1%Z, (3, 2, 0%Z))];
-       completed := []; sugg := [0%Z; 0%Z]; spec_choice := [] |} ].
+       completed := []; failed := []; sugg := [0%Z; 0%Z]; spec_choice := [] |} ].
 Definition wpre : list event :=
   [EStart 0 None; EStart 1 None; EDecision 0 CONTINUE; EDecision 1 CONTINUE; EDecision 0 STOP; EClone 0 1;
    EStop 0; EDelete 0 WStop; EDecision 1 CONTINUE; EDecision 1 STOP; EStop 1; EDelete 1 WStop;
